@@ -1,16 +1,330 @@
 /-
-C01 — link payload integrity (statements in progress).
+C01 — link payload integrity: what send() is given is what the peer's read() returns.
+
+Setting: a driver state `s` (the transmitter's object over its radio `s.d.rid`) in a world with any
+number of radios; the receiver is radio `j`; `Compatible s j p dyn` (`Spec/Link.lean`) spells out
+"configured compatibly": same channel / rate / packet format / CRC / address width, receiver
+listening, `p` the lowest enabled receiver pipe whose address equals the TX address on the address
+width, both ends and the transmitter's driver in the same payload-length mode `dyn`, static width
+of pipe `p` = the length the driver pads to (1..32), undisturbed air (`faults = []`).
+`SendPre` / `AckEnv` are the hypotheses of C02 (PTX, TX FIFO empty or about to be flushed, payload
+passes `write()`'s check).  All theorems hold for every payload content and length, both buffer
+kinds, every `force_retry : Nat`, `ask_no_ack` / `send_only` on or off, every channel, rate, CRC,
+address width and pipe that satisfy `Compatible` — these are universally quantified, not enumerated.
 -/
-import NrfModel.Rf24
+import NrfProofs.C01Write
+import NrfProps.C10
 
 namespace Nrf.Props.C01
-open Nrf
+open Nrf Rf24 Spec.Link
 
-/-- `R_RX_PAYLOAD` of exactly the head payload's length returns that payload and pops it -/
-theorem C01_readPayload_exact (r : Radio) (e : RxEntry) (rest : List RxEntry)
-    (h : r.rxFifo = e :: rest) :
-    (r.readPayload e.data.length).2 = e.data ∧ (r.readPayload e.data.length).1.rxFifo = rest := by
-  unfold Radio.readPayload
-  simp [h]
+/-- **Delivery.**  After `send(buf)` to a compatible receiver that has room and has not just
+    received the very same packet (same PID, address and payload — the chip's duplicate rule, see
+    `C01_consecutive_not_dup`), the receiver's RX FIFO has gained **exactly one** entry, at its tail:
+    the expected payload (zero-padded / truncated to the static length, or unchanged in dynamic mode),
+    attributed to pipe `p`; RX_DR is latched; the receiver's registers are untouched.  For every
+    `force_retry`, with or without auto-ack (repetitions of an ESB packet are dropped as duplicates:
+    exactly once). -/
+theorem C01_delivery (s : DrvState) (buf : Bytes) (m askNoAck : Bool) (n : Nat) (sendOnly : Bool) (j p : Nat) (dyn : Bool)
+    (h : SendPre s buf sendOnly) (henv : AckEnv s.rad (s.sendPacket askNoAck buf) s) (hc : Compatible s j p dyn)
+    (hroom : (s.w.radio j).rxFifo.length < 3)
+    (hnd : (s.w.radio j).isDup (s.sendPacket askNoAck buf) = false) :
+    ((exec (send buf m askNoAck (n : Int) sendOnly) s).2.w.radio j).rxFifo =
+      (s.w.radio j).rxFifo ++ [⟨p, expectedPayload dyn (s.d.plLen.getD 0 0) buf⟩] ∧
+    dataReady ((exec (send buf m askNoAck (n : Int) sendOnly) s).2.w.radio j) = true ∧
+    ((exec (send buf m askNoAck (n : Int) sendOnly) s).2.w.radio j).cfgOf = (s.w.radio j).cfgOf := by
+  have hlen : dyn = true → buf.length ≤ 32 := by
+    intro hd
+    have hm := hc.modeDrv
+    rw [hd] at hm
+    exact (h.lenOk (by simpa using hm)).2
+  have hl := compat_listens s j p dyn askNoAck buf hc hlen
+  rw [send_receiver s buf m askNoAck n sendOnly h henv hc.faults j hc.lt hc.ne]
+  obtain ⟨h1, h2, _⟩ := receive_new_rx _ _ p hl hnd hroom
+  refine ⟨?_, ?_, Radio.receive_cfgOf _ _⟩
+  · rw [h1]
+    have : (s.sendPacket askNoAck buf).data = (s.sendEntry askNoAck buf).data := rfl
+    rw [this, sendEntry_data s j p dyn askNoAck buf hc hlen]
+  · unfold dataReady
+    rw [h2, Nat.and_or_distrib_right]
+    have : ((s.w.radio j).flags &&& 0x40 ||| 0x40 &&& 0x40) ≠ 0 := by
+      intro hz
+      have := (Nat.or_eq_zero_iff.1 hz).2
+      simp at this
+    simp at this ⊢
+
+/-- a world for the examples: radio 0 a PTX, radio 1 listening on the same address, 32-byte static
+    payloads, auto-ack -/
+def exState : DrvState :=
+  { d := { dynPl := 0 },
+    w := { radios := [{ config := 0x0E }, { config := 0x0F, ce := true, rxPw := [32, 0, 0, 0, 0, 0] }],
+           busyUntil := [0, 0] } }
+
+example : Compatible exState 1 0 false ∧ SendPre exState [1, 2, 3] false ∧ (exState.w.radio 1).rxFifo.length < 3 ∧
+    (exState.w.radio 1).isDup (exState.sendPacket false [1, 2, 3]) = false :=
+  ⟨⟨by decide, by decide, by decide, rfl, rfl, rfl, rfl, rfl, by decide, by decide, by decide, by decide, by decide,
+    fun _ => by decide, rfl⟩,
+   ⟨by decide, by decide, by decide, Or.inr rfl, fun _ => Or.inl rfl, fun h => absurd h (by decide), fun _ => by decide⟩,
+   by decide, by decide⟩
+
+example : expectedPayload false 5 [1, 2, 3] = [1, 2, 3, 0, 0] ∧ expectedPayload false 2 [1, 2, 3] = [1, 2] ∧
+    expectedPayload true 5 [1, 2, 3] = [1, 2, 3] := by decide
+
+/-- **Delivery through the non-blocking `write()`.**  From a powered-up PTX with an empty TX FIFO —
+    CE low (the cycle starts when `write()` raises CE) **or already high** (as `send()` leaves it: the
+    cycle starts inside the W_TX_PAYLOAD transaction) — `write(buf)` returns `True` with the caller's
+    buffer, and a compatible receiver with room gains exactly the expected payload on pipe `p`, like
+    with `send()`. -/
+theorem C01_write_delivery (s : DrvState) (buf : Bytes) (m askNoAck : Bool) (j p : Nat) (dyn : Bool)
+    (hw : s.Wf) (hp : s.rad.Ptx) (hpi : s.rad.RxPipes) (htx : s.rad.txFifo = [])
+    (hlenOk : s.d.dynPl &&& 1 ≠ 0 → buf ≠ [] ∧ buf.length ≤ 32)
+    (hc : Compatible s j p dyn)
+    (hroom : (s.w.radio j).rxFifo.length < 3)
+    (hnd : (s.w.radio j).isDup (s.sendPacket askNoAck buf) = false) :
+    (exec (write buf m askNoAck) s).1 = .ok (true, buf) ∧
+    ((exec (write buf m askNoAck) s).2.w.radio j).rxFifo =
+      (s.w.radio j).rxFifo ++ [⟨p, expectedPayload dyn (s.d.plLen.getD 0 0) buf⟩] ∧
+    dataReady ((exec (write buf m askNoAck) s).2.w.radio j) = true := by
+  have hpadOk : s.d.dynPl &&& 1 = 0 → 1 ≤ s.d.plLen.getD 0 0 := by
+    intro hd
+    have hd' : ¬ (s.d.dynPl &&& 1 ≠ 0) := fun hh => hh hd
+    have : dyn = false := by rw [← hc.modeDrv]; exact decide_eq_false hd'
+    exact (hc.width this).2.1
+  have hlen : dyn = true → buf.length ≤ 32 := by
+    intro hd
+    have hm := hc.modeDrv
+    rw [hd] at hm
+    exact (hlenOk (by simpa using hm)).2
+  obtain ⟨h1, h2⟩ := write_receiver s buf m askNoAck hw hp hpi htx hlenOk hpadOk hc.faults j hc.lt hc.ne
+  have hl := compat_listens s j p dyn askNoAck buf hc hlen
+  obtain ⟨r1, r2, _⟩ := receive_new_rx _ _ p hl hnd hroom
+  refine ⟨h1, ?_, ?_⟩
+  · rw [h2, r1]
+    have : (s.sendPacket askNoAck buf).data = (s.sendEntry askNoAck buf).data := rfl
+    rw [this, sendEntry_data s j p dyn askNoAck buf hc hlen]
+  · rw [h2]
+    unfold dataReady
+    rw [r2, Nat.and_or_distrib_right]
+    have : ((s.w.radio j).flags &&& 0x40 ||| 0x40 &&& 0x40) ≠ 0 := by
+      intro hz
+      have := (Nat.or_eq_zero_iff.1 hz).2
+      simp at this
+    simp at this ⊢
+
+example : exState.Wf ∧ exState.rad.Ptx ∧ exState.rad.RxPipes ∧ exState.rad.txFifo = [] :=
+  ⟨by decide, by decide, by decide, rfl⟩
+
+/-- `p` in `Compatible` in the words of the property: `p ≤ 5` is enabled, its address equals the TX
+    address on the address width, and no lower-numbered enabled pipe matches -/
+theorem C01_pipe_iff (r : Radio) (a : Bytes) (p : Nat) :
+    r.matchPipe a = some p ↔
+      (p ≤ 5 ∧ (Radio.bit r.enRxAddr p && (r.rxAddr p).take r.aw == a) = true ∧
+       ∀ q, q < p → (Radio.bit r.enRxAddr q && (r.rxAddr q).take r.aw == a) = false) := by
+  unfold Radio.matchPipe
+  have hr : [0, 1, 2, 3, 4, 5] = List.range 6 := by decide
+  rw [hr, find_range]
+  constructor
+  · rintro ⟨h1, h2, h3⟩; exact ⟨by omega, h2, h3⟩
+  · rintro ⟨h1, h2, h3⟩; exact ⟨by omega, h2, h3⟩
+
+/-- **The peer's `read()` returns it, and `pipe` says `p`.**  Any driver object `d2` on the
+    receiver's radio `j` (any shadow state), RX FIFO empty before the `send()`: after `send(buf)`,
+    `update()` makes `pipe` = `p`, `available()`-style accessors see the payload (`C10_cached`), and
+    `read()` returns exactly the expected payload, leaving the RX FIFO empty — so a further `read()`
+    returns `None` (`C10_read_empty`): exactly once.  (`hsh`: in static mode the receiver's `_pl_len`
+    shadow of pipe `p` mirrors RX_PW — the C03 invariant.) -/
+theorem C01_read_back (s : DrvState) (buf : Bytes) (m askNoAck : Bool) (n : Nat) (sendOnly : Bool) (j p : Nat) (dyn : Bool)
+    (h : SendPre s buf sendOnly) (henv : AckEnv s.rad (s.sendPacket askNoAck buf) s) (hc : Compatible s j p dyn)
+    (hempty : (s.w.radio j).rxFifo = [])
+    (hnd : (s.w.radio j).isDup (s.sendPacket askNoAck buf) = false)
+    (d2 : Rf24) (hd2 : d2.rid = j)
+    (hsh : d2.features &&& 4 = 0 → d2.plLen.getD p 0 = (expectedPayload dyn (s.d.plLen.getD 0 0) buf).length) :
+    (exec (Rf24.read none) { d := d2, w := (exec (send buf m askNoAck (n : Int) sendOnly) s).2.w }).1 =
+      .ok (some (expectedPayload dyn (s.d.plLen.getD 0 0) buf)) ∧
+    (exec (Rf24.read none) { d := d2, w := (exec (send buf m askNoAck (n : Int) sendOnly) s).2.w }).2.rad.rxFifo = [] ∧
+    (exec (update >>= fun _ => pipe) { d := d2, w := (exec (send buf m askNoAck (n : Int) sendOnly) s).2.w }).1 =
+      .ok (some p) := by
+  obtain ⟨hrx, _, hcfg⟩ := C01_delivery s buf m askNoAck n sendOnly j p dyn h henv hc (by rw [hempty]; decide) hnd
+  rw [hempty, List.nil_append] at hrx
+  generalize hw' : (exec (send buf m askNoAck (n : Int) sendOnly) s).2.w = w' at *
+  obtain ⟨_, ⟨att, _, _, _, hrun⟩, _, _⟩ := send_final s buf m askNoAck n sendOnly h henv
+  have hlen' : w'.radios.length = s.w.radios.length := by rw [← hw']; exact hrun.sent.len
+  let s2 : DrvState := { d := d2, w := w' }
+  have hrad2 : s2.rad = w'.radio j := by show w'.radio d2.rid = _; rw [hd2]
+  have hwf2 : s2.Wf := by show d2.rid < w'.radios.length; rw [hd2, hlen']; exact hc.lt
+  have hp5 : p ≤ 5 := Radio.matchPipe_le _ _ _ hc.pipe
+  -- the payload is not empty
+  have hne : expectedPayload dyn (s.d.plLen.getD 0 0) buf ≠ [] := by
+    unfold expectedPayload
+    cases dyn with
+    | true =>
+      simp only [↓reduceIte]
+      have hm := hc.modeDrv
+      exact (h.lenOk (by simpa using hm)).1
+    | false =>
+      simp only [Bool.false_eq_true, ↓reduceIte]
+      obtain ⟨_, h1, _⟩ := hc.width rfl
+      intro hz
+      have := congrArg List.length hz
+      simp only [List.length_take, List.length_append, List.length_replicate, List.length_nil] at this
+      omega
+  have hrxwf : s2.rad.RxWf := by
+    rw [hrad2]; intro e he; rw [hrx] at he
+    simp only [List.mem_cons, List.not_mem_nil, or_false] at he; subst he; exact ⟨hp5, hne⟩
+  have hidle : s2.rad.Idle := by
+    rw [hrad2]
+    have hc' : (w'.radio j).config = (s.w.radio j).config := by
+      have := congrArg Radio.config hcfg; exact this
+    have : (w'.radio j).primRx = true := by
+      unfold Radio.primRx; rw [hc']
+      have := hc.listening
+      unfold Radio.rxMode at this
+      simp only [Bool.and_eq_true] at this
+      exact this.1.2
+    exact Radio.idle_of_primRx _ this
+  have hfifo : s2.rad.rxFifo = ⟨p, expectedPayload dyn (s.d.plLen.getD 0 0) buf⟩ :: [] := by rw [hrad2, hrx]
+  obtain ⟨r1, r2, _⟩ := C10.C10_read s2 hwf2 hrxwf hidle _ [] hfifo hsh
+  refine ⟨r1, by rw [r2], ?_⟩
+  obtain ⟨_, u2, u3⟩ := C10.C10_update s2 hwf2
+  obtain ⟨ur, _, uf⟩ := u3 hidle
+  rw [exec_bind, exec_update]
+  rw [exec_update] at ur uf
+  simp only
+  have hrxwf' : (s2.spiStep [0xFF]).rad.RxWf := by rw [ur]; exact hrxwf
+  rw [(C10.C10_cached _ hrxwf' uf).1, ur]
+  simp only [nextPipe, hfifo]
+
+example : ∃ d2 : Rf24, d2.rid = 1 ∧ (d2.features &&& 4 = 0 → d2.plLen.getD 0 0 = (expectedPayload false 32 [1, 2, 3]).length) :=
+  ⟨{ rid := 1 }, rfl, fun _ => by decide⟩
+
+/-- **Consecutive packets are never duplicates of each other**: the PID a new payload gets is the
+    transmitter's `nextPid`, which the previous new payload advanced (`takePid`), so it differs from
+    the previous packet's PID — in every state.  (This is what keeps a
+    receiver from dropping the second of two equal payloads; `isDup` only fires on an equal PID.) -/
+theorem C01_consecutive_not_dup (r : Radio) (e e' : TxEntry) (he : e.pid = none) (he' : e'.pid = none) :
+    (r.takePid e).pidFor e' ≠ r.pidFor e := by
+  unfold Radio.takePid Radio.pidFor
+  rw [he, he']
+  simp only [Option.isNone_none, ↓reduceIte, Option.getD_none]
+  omega
+
+example : (({} : Radio).takePid ⟨.payload, [1], none⟩).pidFor ⟨.payload, [1], none⟩ = 1 := by decide
+
+/-- **Order, exactly once.**  A transmitter object `d1` and a receiver object `d2` over one world
+    (`Link`), any list of operations `d1.send(buf, …)` / `d2.read()` (any buffers, buffer kinds,
+    `ask_no_ack`, `force_retry`, `send_only` per call).  `orderSpec` is the abstract receiver queue: a
+    `send` appends the expected payload provided at most 2 are unread before it (so never more than 3
+    are) and the payload is legal; a `read` returns and removes the oldest, or `None`.  Whenever the
+    abstract queue is defined on the whole list, the outcomes of the real `read()`s — in order — are
+    exactly its outcomes: every payload is read **once, in order, byte for byte**, none is lost or
+    duplicated (consecutive packets carry different PIDs, so none is dropped as a duplicate:
+    `LinkInv.nodup` is kept by every `send`), and reads of an empty queue return `None`.
+    `LinkInv` (`NrfProofs/C01Order.lean`) is the invariant: `Compatible`, the send/resend history
+    invariant of C02, receiver's RX FIFO = the unread expected payloads on pipe `p`, no radio holds an
+    empty ACK payload, the receiver object's shadows (if it believes in static payloads) mirror the
+    static length.  It holds initially in the example below and is re-established by every step
+    (`linkInv_send`, `linkInv_read`). -/
+theorem C01_order (R : Radio) (j p : Nat) (dyn : Bool) (ops : List LinkOp) (L : Link) (pend : List Bytes)
+    (h : LinkInv R j p dyn L pend) (results : List (Option Bytes))
+    (hs : orderSpec dyn (L.d1.plLen.getD 0 0) pend ops = some results) :
+    (L.run ops).2 = results.map .ok :=
+  link_order R j p dyn ops L pend h results hs
+
+/-- the link of the examples: transmitter object on radio 0, receiver object on radio 1 -/
+def exLink : Link := { d1 := exState.d, d2 := { rid := 1 }, w := exState.w }
+
+example : LinkInv { config := 0x0E } 1 0 false exLink [] :=
+  { hist := Or.inr ⟨by decide, rfl, by decide, rfl, Or.inl rfl⟩
+    ptx := by decide
+    compat := ⟨by decide, by decide, by decide, rfl, rfl, rfl, rfl, rfl, by decide, by decide, by decide, by decide,
+      by decide, fun _ => by decide, rfl⟩
+    rid2 := rfl
+    rxq := rfl
+    pendOk := fun b hb => by cases hb
+    pendLen := fun _ b hb => by cases hb
+    nodup := fun _ l hl => by cases hl
+    acks := by
+      intro q hq hqs
+      have : q = 1 := by
+        have : q < 2 := hq
+        have : q ≠ 0 := hqs
+        omega
+      subst this
+      exact ⟨(fun e he => by cases he), (fun d hd => by cases hd)⟩
+    feat := fun hc => absurd hc (by decide)
+    shadow := fun hf => absurd hf (by decide) }
+
+example : orderSpec false 32 [] [.send [1] false false 0 false, .send [2] true true 3 true, .read, .read, .read]
+    = some [some (expectedPayload false 32 [1]), some (expectedPayload false 32 [2]), none] := by decide
+
+/-- **Overflow is not silent.**  The receiver already holds 3 unread payloads: a 4th `send()` (with
+    auto-ack, in a world of just these two radios) returns `False` — for every `force_retry` — and
+    the receiver is exactly as before: nothing is stored, nothing is dropped. -/
+theorem C01_overflow (s : DrvState) (buf : Bytes) (m askNoAck : Bool) (n : Nat) (sendOnly : Bool) (j p : Nat) (dyn : Bool)
+    (h : SendPre s buf sendOnly) (henv : AckEnv s.rad (s.sendPacket askNoAck buf) s) (hc : Compatible s j p dyn)
+    (htwo : s.w.radios.length = 2) (haw : s.sendAwaits askNoAck buf = true)
+    (hfull : (s.w.radio j).rxFifo.length ≥ 3)
+    (hnd : (s.w.radio j).isDup (s.sendPacket askNoAck buf) = false) :
+    (exec (send buf m askNoAck (n : Int) sendOnly) s).1 = .ok (.bool false, buf) ∧
+    (exec (send buf m askNoAck (n : Int) sendOnly) s).2.w.radio j = s.w.radio j := by
+  have hlen : dyn = true → buf.length ≤ 32 := by
+    intro hd
+    have hm := hc.modeDrv
+    rw [hd] at hm
+    exact (h.lenOk (by simpa using hm)).2
+  have hl := compat_listens s j p dyn askNoAck buf hc hlen
+  have hrecv := Radio.receive_full _ _ p hl hnd hfull
+  constructor
+  · rw [(send_final s buf m askNoAck n sendOnly h henv).1]
+    have hA : s.sendAcked askNoAck buf = false := by
+      unfold DrvState.sendAcked ackedR
+      have : (s.w.deliver s.d.rid (s.sendPacket askNoAck buf)).2.isSome = false := by
+        cases hh : (s.w.deliver s.d.rid (s.sendPacket askNoAck buf)).2.isSome with
+        | false => rfl
+        | true =>
+          obtain ⟨i, hi, his, hr⟩ := (World.deliver_ack_isSome _ _ _).1 hh
+          have hij : i = j := by
+            have := hc.ne; have := hc.lt; have hw := h.wf
+            unfold DrvState.Wf at hw
+            omega
+          rw [hij, hrecv] at hr
+          cases hr
+      rw [this, Bool.and_false]
+    unfold sendSucceedsB sendExpected
+    rw [haw, hA]
+    rfl
+  · rw [send_receiver s buf m askNoAck n sendOnly h henv hc.faults j hc.lt hc.ne, hrecv]
+
+/-- **Rejection.**  Dynamic payloads on, a payload of 0 or more than 32 bytes: `write()` raises
+    `ValueError` and the state — driver object, every radio, the air log, the clock — is **identical**
+    (no SPI transaction at all); `send()` raises `ValueError` after its preamble (CE low and the
+    flushes the cached status byte asks for): no W_TX_PAYLOAD is issued, so the TX FIFO is as before or
+    flushed, nothing goes on the air, the fault pattern and every other radio (the peer) are
+    untouched. -/
+theorem C01_reject (s : DrvState) (buf : Bytes) (m askNoAck : Bool) (forceRetry : Int) (sendOnly : Bool) (hw : s.Wf)
+    (hd : s.d.dynPl &&& 1 ≠ 0) (hb : buf = [] ∨ buf.length > 32) :
+    exec (write buf m askNoAck) s = (.error .valueError, s) ∧
+    (exec (send buf m askNoAck forceRetry sendOnly) s).1 = .error .valueError ∧
+    ((exec (send buf m askNoAck forceRetry sendOnly) s).2.rad.txFifo = s.rad.txFifo ∨
+     (exec (send buf m askNoAck forceRetry sendOnly) s).2.rad.txFifo = []) ∧
+    (exec (send buf m askNoAck forceRetry sendOnly) s).2.w.air = s.w.air ∧
+    (exec (send buf m askNoAck forceRetry sendOnly) s).2.w.faults = s.w.faults ∧
+    (∀ j, j ≠ s.d.rid → (exec (send buf m askNoAck forceRetry sendOnly) s).2.w.radio j = s.w.radio j) :=
+  ⟨write_reject s buf m askNoAck hd hb, send_reject s buf m askNoAck forceRetry sendOnly hw hd hb⟩
+
+example : ∃ s : DrvState, s.Wf ∧ s.d.dynPl &&& 1 ≠ 0 := ⟨{ d := {}, w := World.fresh 1 }, by decide, by decide⟩
+
+/-- **The caller's buffer is never modified.**  In the model `write`/`send` return, next to their
+    result, the caller's buffer object as it is after the call (`bytearray` or `bytes`, flag `m`):
+    in every state, for every argument and outcome, it equals the buffer passed in.  (Immediate from
+    the model since the fix a988495 replaced the in-place `buf += …` by `buf = buf + …`; the model
+    follows the repaired code, and the correspondence run compares the caller's object after every
+    call on the real code.) -/
+theorem C01_buffer_unchanged (s : DrvState) (buf : Bytes) (m askNoAck : Bool) (forceRetry : Int) (sendOnly : Bool) :
+    (∀ r, (exec (write buf m askNoAck) s).1 = .ok r → r.2 = buf) ∧
+    (∀ r, (exec (send buf m askNoAck forceRetry sendOnly) s).1 = .ok r → r.2 = buf) :=
+  ⟨fun r h => write_buffer s buf m askNoAck r h, fun r h => send_buffer buf m askNoAck forceRetry sendOnly s r h⟩
+
+example : (exec (write [1, 2, 3] true false) exState).1 = .ok (true, [1, 2, 3]) := by rfl
 
 end Nrf.Props.C01
